@@ -662,6 +662,15 @@ def run(prop, tier, seed):
     try:
         with tlcrun.Scratch() as scratch:
             _run(verdict, cov, tier, seed, rng, thorough, scratch)
+            # the schedule half: Core.tla's model of reload_from_config and the C12 clauses of Monitors.tla on
+            # reloads interleaved with deaths, periodic checks, read-only requests (harness/check_reload.py)
+            from harness import check_reload
+            sched = check_reload.run_reload_sched(verdict, tier, seed, scratch, ("C12_",), n_quick=200, n_thorough=5000,
+                                                  conf_quick=60, conf_thorough=800)
+            cov["reload_schedules"] = sched
+            cov["traces_validated_against_impl"] += int(sched.get("traces_validated_against_impl", 0))
+            cov["states"] += int(sched.get("states", 0))
+            cov["transitions"] += int(sched.get("transitions", 0))
     except Exception:
         verdict.machinery.append("exception in check_c12:\n" + traceback.format_exc())
     evidence["wall_s"] = timer.wall()
